@@ -1,7 +1,62 @@
-(** Lemmas about the model of match/match.go and the subscribe functions on it. *)
+(** Lemmas about the model of match/match.go and of the subscribe functions
+    that sit on it (MatchModel.v). *)
 From Gnmi Require Import Base.Prelude CTree.CTreeModel Path.PathModel Match.MatchModel.
 
-(** ctree.Query's relation is contained in the streaming relation. *)
+(** * Generic helpers *)
+
+Lemma branch_ind' (P : branch -> Prop) :
+  (forall cl ch, Forall (fun kc => P (snd kc)) ch -> P (Br cl ch)) ->
+  forall b, P b.
+Proof.
+  intros H. fix IH 1. intros [cl ch]. apply H.
+  induction ch as [|[k c] ch IHch]; constructor; [apply IH|apply IHch].
+Qed.
+
+Lemma in_keys_assoc {A} k (l : list (string * A)) : In k (keys l) -> exists a, assoc k l = Some a.
+Proof.
+  induction l as [|[k' a] l IH]; cbn; [tauto|].
+  destruct (String.eqb_spec k k') as [->|Hn]; [eauto|].
+  intros [E|Hin]; [congruence|auto].
+Qed.
+
+Lemma Forall_aset {A} (P : string * A -> Prop) k a l :
+  Forall P l -> P (k, a) -> Forall P (aset k a l).
+Proof.
+  induction l as [|[k' a'] l IH]; cbn; intros Hl Hp.
+  - constructor; auto.
+  - inversion Hl; subst. destruct (String.eqb_spec k k') as [->|Hn]; constructor; auto.
+Qed.
+
+Lemma Forall_adel {A} (P : string * A -> Prop) k l : Forall P l -> Forall P (adel k l).
+Proof.
+  induction l as [|[k' a'] l IH]; cbn; intros Hl; [constructor|].
+  inversion Hl; subst. destruct (String.eqb k k'); [assumption|constructor; auto].
+Qed.
+
+Lemma aset_aset_same {A} k (a b : A) l : aset k a (aset k b l) = aset k a l.
+Proof.
+  induction l as [|[k' a'] l IH]; cbn.
+  - now rewrite String.eqb_refl.
+  - destruct (String.eqb_spec k k') as [->|Hn]; cbn.
+    + now rewrite String.eqb_refl.
+    + destruct (String.eqb_spec k k'); [congruence|]. now rewrite IH.
+Qed.
+
+Lemma mem_In c s : mem c s = true <-> In c s.
+Proof.
+  unfold mem. rewrite existsb_exists. split.
+  - intros (x & Hx & E). apply Nat.eqb_eq in E. now subst.
+  - intros H. exists c. split; [assumption|apply Nat.eqb_refl].
+Qed.
+
+Lemma mem_false c s : mem c s = false <-> ~ In c s.
+Proof. rewrite <- mem_In. destruct (mem c s); split; congruence. Qed.
+
+Lemma is_glob_eq k : is_glob k = true <-> k = "*".
+Proof. unfold is_glob. apply String.eqb_eq. Qed.
+
+(** * ctree.Query's relation is contained in the streaming relation *)
+
 Lemma qmatch_compat q p : qmatch q p = true -> compat q p = true.
 Proof.
   revert p; induction q as [|k r IH]; intros p; cbn; [reflexivity|].
@@ -10,3 +65,1008 @@ Proof.
   - destruct r as [|k' r']; [reflexivity|]. intros H. apply IH in H. exact H.
   - rewrite andb_true_iff. intros [-> H]. rewrite orb_true_r. cbn. auto.
 Qed.
+
+Lemma compat_nil_r q : compat q [] = true.
+Proof. destruct q; reflexivity. Qed.
+
+Lemma compat_sym q p : compat q p = compat p q.
+Proof.
+  revert p; induction q as [|a q IH]; intros [|b p]; cbn; try reflexivity.
+  rewrite IH. f_equal. rewrite (String.eqb_sym a b).
+  destruct (is_glob a), (is_glob b); reflexivity.
+Qed.
+
+(** a query that is a prefix of the update path, or extends it, is compatible *)
+Lemma compat_prefix q s : compat q (q ++ s) = true.
+Proof.
+  induction q as [|a q IH]; cbn; [reflexivity|].
+  rewrite String.eqb_refl, orb_true_r. exact IH.
+Qed.
+
+(** * Well-formed tries: the keys of every children map are distinct *)
+
+Inductive wf : branch -> Prop :=
+| wf_br cl ch : NoDup cl -> NoDup (keys ch) -> Forall (fun kc => wf (snd kc)) ch -> wf (Br cl ch).
+
+Lemma wf_empty : wf empty_branch.
+Proof. constructor; constructor. Qed.
+
+Lemma wf_child cl ch k sb : wf (Br cl ch) -> assoc k ch = Some sb -> wf sb.
+Proof.
+  intros H Hk. inversion H as [? ? _ _ Hall]; subst. rewrite Forall_forall in Hall.
+  apply assoc_In in Hk. exact (Hall _ Hk).
+Qed.
+
+Lemma NoDup_cl_add c cl : NoDup cl -> NoDup (cl_add c cl).
+Proof.
+  intros H. unfold cl_add. destruct (mem c cl) eqn:E; [assumption|].
+  apply NoDup_app_intro_single; [assumption|now apply mem_false].
+Qed.
+
+Lemma In_cl_add c c' cl : In c' (cl_add c cl) <-> c' = c \/ In c' cl.
+Proof.
+  unfold cl_add. destruct (mem c cl) eqn:E.
+  - apply mem_In in E. split; [auto|]. intros [->|H]; assumption.
+  - rewrite in_app_iff. cbn. split; [intros [H|[H|[]]]; auto|intros [H|H]; auto].
+Qed.
+
+Lemma In_cl_del c c' cl : In c' (cl_del c cl) <-> In c' cl /\ c' <> c.
+Proof.
+  unfold cl_del. rewrite filter_In, negb_true_iff, Nat.eqb_neq. tauto.
+Qed.
+
+Lemma NoDup_cl_del c cl : NoDup cl -> NoDup (cl_del c cl).
+Proof. apply NoDup_filter. Qed.
+
+Lemma wf_add_query q : forall c b, wf b -> wf (add_query q c b).
+Proof.
+  induction q as [|k r IH]; intros c [cl ch] Hwf; cbn.
+  - inversion Hwf; subst. constructor; auto using NoDup_cl_add.
+  - inversion Hwf as [? ? Hcl Hnd Hall]; subst. constructor; auto.
+    + now apply NoDup_keys_aset.
+    + apply Forall_aset; [assumption|]. cbn. apply IH.
+      destruct (assoc k ch) as [sb|] eqn:Hk; [eapply wf_child; eauto|apply wf_empty].
+Qed.
+
+Lemma wf_remove_query q : forall c b, wf b -> wf (fst (remove_query q c b)).
+Proof.
+  induction q as [|k r IH]; intros c [cl ch] Hwf; cbn.
+  - inversion Hwf; subst. constructor; auto using NoDup_cl_del.
+  - destruct (assoc k ch) as [sb|] eqn:Hk; cbn; [|assumption].
+    inversion Hwf as [? ? Hcl Hnd Hall]; subst.
+    destruct (snd (remove_query r c sb)).
+    + constructor; auto using NoDup_keys_adel, Forall_adel.
+    + constructor; auto using NoDup_keys_aset.
+      apply Forall_aset; [assumption|]. cbn. apply IH. eapply wf_child; eauto.
+Qed.
+
+Lemma wf_remove_root q c b : wf b -> wf (remove_root q c b).
+Proof. apply wf_remove_query. Qed.
+
+(** * What is registered where: [clients_at] under add and remove *)
+
+Lemma clients_at_cons cl ch k r :
+  clients_at (Br cl ch) (k :: r) =
+  match assoc k ch with Some sb => clients_at sb r | None => [] end.
+Proof. cbn. apply find_with_assoc. Qed.
+
+Lemma clients_at_empty q : clients_at empty_branch q = [].
+Proof. destruct q; reflexivity. Qed.
+
+Lemma clients_at_add_query q : forall c b q' c',
+  In c' (clients_at (add_query q c b) q') <->
+  (q' = q /\ c' = c) \/ In c' (clients_at b q').
+Proof.
+  induction q as [|k r IH]; intros c [cl ch] q' c'.
+  - cbn [add_query]. destruct q' as [|k' r'].
+    + cbn. rewrite In_cl_add. intuition congruence.
+    + rewrite !clients_at_cons. intuition congruence.
+  - cbn [add_query]. destruct q' as [|k' r'].
+    + cbn. intuition congruence.
+    + rewrite !clients_at_cons, assoc_aset.
+      destruct (String.eqb_spec k' k) as [->|Hn].
+      * rewrite IH. destruct (assoc k ch) as [sb|]; [|rewrite clients_at_empty];
+          intuition congruence.
+      * intuition congruence.
+Qed.
+
+Lemma remove_query_flag q : forall c b,
+  snd (remove_query q c b) =
+  is_empty_br (br_clients (fst (remove_query q c b))) (br_children (fst (remove_query q c b))).
+Proof.
+  destruct q as [|k r]; intros c [cl ch]; cbn; [reflexivity|].
+  destruct (assoc k ch); reflexivity.
+Qed.
+
+Lemma clients_at_is_empty cl ch q : is_empty_br cl ch = true -> clients_at (Br cl ch) q = [].
+Proof.
+  destruct cl, ch; cbn; try discriminate. intros _. destruct q; reflexivity.
+Qed.
+
+Lemma clients_at_remove_query q : forall c b q' c',
+  wf b ->
+  (In c' (clients_at (fst (remove_query q c b)) q') <->
+   In c' (clients_at b q') /\ ~ (q' = q /\ c' = c)).
+Proof.
+  induction q as [|k r IH]; intros c [cl ch] q' c' Hwf.
+  - cbn [remove_query fst]. destruct q' as [|k' r'].
+    + cbn. rewrite In_cl_del. intuition congruence.
+    + rewrite !clients_at_cons. intuition congruence.
+  - cbn [remove_query]. destruct (assoc k ch) as [sb|] eqn:Hk.
+    2:{ cbn [fst]. split; [|tauto]. intros H. split; [assumption|].
+        intros [-> ->]. rewrite clients_at_cons, Hk in H. contradiction. }
+    cbn [fst]. inversion Hwf as [? ? Hcl Hnd Hall]; subst.
+    assert (Hsb : wf sb) by (eapply wf_child; eauto).
+    destruct q' as [|k' r'].
+    + cbn. intuition congruence.
+    + rewrite !clients_at_cons.
+      destruct (snd (remove_query r c sb)) eqn:Hflag.
+      * rewrite assoc_adel by assumption.
+        destruct (String.eqb_spec k' k) as [->|Hn].
+        -- rewrite Hk. split; [intros []|]. intros [Hin Hne].
+           assert (Hx : In c' (clients_at (fst (remove_query r c sb)) r')).
+           { apply IH; [assumption|]. split; [assumption|]. intros [-> ->]. apply Hne. auto. }
+           rewrite remove_query_flag in Hflag.
+           destruct (fst (remove_query r c sb)) as [cl' ch']. cbn in Hflag.
+           rewrite (clients_at_is_empty _ _ _ Hflag) in Hx. contradiction.
+        -- intuition congruence.
+      * rewrite assoc_aset. destruct (String.eqb_spec k' k) as [->|Hn].
+        -- rewrite Hk, IH by assumption.
+           split; intros [H1 H2]; (split; [assumption|]); intros [E ->]; apply H2; split; congruence.
+        -- intuition congruence.
+Qed.
+
+Lemma clients_at_remove_root q c b q' c' :
+  wf b ->
+  (In c' (clients_at (remove_root q c b) q') <->
+   In c' (clients_at b q') /\ ~ (q' = q /\ c' = c)).
+Proof. apply clients_at_remove_query. Qed.
+
+(** * The walk offers exactly the clients registered on a compatible path *)
+
+Lemma find_with_In {B} (f : branch -> list B) k ch x :
+  In x (find_with f [] k ch) <-> exists sb, assoc k ch = Some sb /\ In x (f sb).
+Proof.
+  rewrite find_with_assoc. destruct (assoc k ch) as [sb|].
+  - split; [eauto|]. intros (sb' & E & H). inversion E; subst. assumption.
+  - split; [intros []|]. intros (sb' & E & _). discriminate.
+Qed.
+
+Lemma visit_spec b : forall p c,
+  wf b ->
+  (In c (visit b p) <-> exists q, In c (clients_at b q) /\ compat q p = true).
+Proof.
+  induction b as [cl ch IH] using branch_ind'. intros p c Hwf.
+  inversion Hwf as [? ? Hcl Hnd Hall]; subst.
+  rewrite Forall_forall in IH, Hall.
+  cbn [visit]. rewrite in_app_iff. split.
+  - intros [Hc|Hc].
+    + exists []. split; [exact Hc|reflexivity].
+    + destruct ch as [|kc0 ch0] eqn:Hch; [destruct Hc|]. rewrite <- Hch in *. clear Hch kc0 ch0.
+      destruct p as [|k r].
+      * apply in_flat_map in Hc as ([k' sb] & Hin & Hv). cbn in Hv.
+        apply (IH _ Hin) in Hv; [|apply (Hall _ Hin)]. destruct Hv as (q & Hq & _).
+        exists (k' :: q). split; [|reflexivity].
+        rewrite clients_at_cons, (In_assoc _ _ _ Hnd Hin). exact Hq.
+      * destruct (is_glob k) eqn:Hg.
+        -- apply in_flat_map in Hc as ([k' sb] & Hin & Hv). cbn in Hv.
+           apply (IH _ Hin) in Hv; [|apply (Hall _ Hin)]. destruct Hv as (q & Hq & Hcq).
+           exists (k' :: q). split.
+           ++ rewrite clients_at_cons, (In_assoc _ _ _ Hnd Hin). exact Hq.
+           ++ cbn. rewrite Hg, orb_true_r. exact Hcq.
+        -- apply in_app_iff in Hc as [Hc|Hc]; apply find_with_In in Hc as (sb & Hk & Hv);
+             pose proof (assoc_In _ _ _ Hk) as Hin;
+             apply (IH _ Hin) in Hv; try apply (Hall _ Hin); destruct Hv as (q & Hq & Hcq).
+           ++ exists ("*" :: q). split; [rewrite clients_at_cons, Hk; exact Hq|].
+              cbn. exact Hcq.
+           ++ exists (k :: q). split; [rewrite clients_at_cons, Hk; exact Hq|].
+              cbn. rewrite String.eqb_refl, orb_true_r. exact Hcq.
+  - intros (q & Hq & Hcq). destruct q as [|k' q'].
+    + left. exact Hq.
+    + right. rewrite clients_at_cons in Hq.
+      destruct (assoc k' ch) as [sb|] eqn:Hk; [|destruct Hq].
+      pose proof (assoc_In _ _ _ Hk) as Hin.
+      destruct ch as [|kc0 ch0] eqn:Hch; [destruct Hin|]. rewrite <- Hch in *. clear Hch kc0 ch0.
+      destruct p as [|k r].
+      * apply in_flat_map. exists (k', sb). split; [assumption|]. cbn.
+        apply (IH _ Hin); [apply (Hall _ Hin)|]. exists q'. split; [assumption|apply compat_nil_r].
+      * cbn in Hcq. apply andb_true_iff in Hcq as [Hhd Hcq].
+        destruct (is_glob k) eqn:Hg.
+        -- apply in_flat_map. exists (k', sb). split; [assumption|]. cbn.
+           apply (IH _ Hin); [apply (Hall _ Hin)|]. eauto.
+        -- rewrite orb_false_r in Hhd. apply in_app_iff.
+           assert (Hv : In c (visit sb r)).
+           { apply (IH _ Hin); [apply (Hall _ Hin)|]. eauto. }
+           apply orb_true_iff in Hhd as [Hhd|Hhd].
+           ++ left. apply is_glob_eq in Hhd. subst k'. apply find_with_In. eauto.
+           ++ right. apply String.eqb_eq in Hhd. subst k'. apply find_with_In. eauto.
+Qed.
+
+(** * Histories: every trie reachable by registrations and removals *)
+
+Inductive hop := HAdd (q : path) (c : cid) | HRem (q : path) (c : cid).
+
+Definition run_hop (b : branch) (o : hop) : branch :=
+  match o with
+  | HAdd q c => add_query q c b
+  | HRem q c => remove_root q c b
+  end.
+
+Definition run_hist (h : list hop) : branch := fold_left run_hop h empty_branch.
+
+(** the registrations as a set of (path, client) pairs *)
+Definition pair_eqb (x y : path * cid) : bool := path_eqb (fst x) (fst y) && Nat.eqb (snd x) (snd y).
+
+Definition reg_hop (R : list (path * cid)) (o : hop) : list (path * cid) :=
+  match o with
+  | HAdd q c => (q, c) :: R
+  | HRem q c => filter (fun x => negb (pair_eqb x (q, c))) R
+  end.
+
+Definition regs (h : list hop) : list (path * cid) := fold_left reg_hop h [].
+
+Lemma pair_eqb_eq x y : pair_eqb x y = true <-> x = y.
+Proof.
+  destruct x as [q c], y as [q' c']. unfold pair_eqb. cbn.
+  rewrite andb_true_iff, path_eqb_eq, Nat.eqb_eq. split; [intros [-> ->]; reflexivity|].
+  intros E; inversion E; auto.
+Qed.
+
+Definition agrees (b : branch) (R : list (path * cid)) : Prop :=
+  wf b /\ forall q c, In c (clients_at b q) <-> In (q, c) R.
+
+Lemma agrees_step b R o : agrees b R -> agrees (run_hop b o) (reg_hop R o).
+Proof.
+  intros [Hwf Hag]. destruct o as [q c|q c]; cbn.
+  - split; [now apply wf_add_query|]. intros q' c'.
+    rewrite clients_at_add_query, Hag. cbn. intuition congruence.
+  - split; [now apply wf_remove_root|]. intros q' c'.
+    rewrite clients_at_remove_root by assumption. rewrite Hag, filter_In, negb_true_iff.
+    split.
+    + intros [Hin Hne]. split; [assumption|].
+      destruct (pair_eqb (q', c') (q, c)) eqn:E; [|reflexivity].
+      apply pair_eqb_eq in E. inversion E; subst. exfalso; apply Hne; auto.
+    + intros [Hin Hne]. split; [assumption|]. intros [-> ->].
+      assert (pair_eqb (q, c) (q, c) = true) by (apply pair_eqb_eq; reflexivity). congruence.
+Qed.
+
+Lemma agrees_fold h : forall b R, agrees b R -> agrees (fold_left run_hop h b) (fold_left reg_hop h R).
+Proof.
+  induction h as [|o h IH]; intros b R H; cbn; [assumption|]. apply IH. now apply agrees_step.
+Qed.
+
+Lemma agrees_hist h : agrees (run_hist h) (regs h).
+Proof.
+  apply agrees_fold. split; [apply wf_empty|]. intros q c. rewrite clients_at_empty. cbn. tauto.
+Qed.
+
+Lemma wf_hist h : wf (run_hist h).
+Proof. apply agrees_hist. Qed.
+
+(** * [deliver]: the [updated] set *)
+
+Lemma deliver_none vs : deliver vs None = (vs, None).
+Proof. induction vs as [|c vs IH]; cbn; [reflexivity|]. now rewrite IH. Qed.
+
+Lemma deliver_some vs : forall s,
+  exists s', snd (deliver vs (Some s)) = Some s' /\
+  (forall c, In c s' <-> In c s \/ In c vs) /\
+  (forall c, In c (fst (deliver vs (Some s))) <-> In c vs /\ ~ In c s) /\
+  NoDup (fst (deliver vs (Some s))).
+Proof.
+  induction vs as [|c vs IH]; intros s; cbn.
+  - exists s. split; [reflexivity|]. split; [tauto|]. split; [tauto|constructor].
+  - destruct (mem c s) eqn:E.
+    + apply mem_In in E. destruct (IH s) as (s' & Hs' & Hin & Hf & Hnd).
+      exists s'. split; [assumption|]. split; [|split; [|assumption]].
+      * intros x. rewrite Hin. intuition (subst; auto).
+      * intros x. rewrite Hf. intuition (subst; auto). subst. contradiction.
+    + apply mem_false in E. destruct (IH (c :: s)) as (s' & Hs' & Hin & Hf & Hnd).
+      cbn. exists s'. split; [assumption|]. split; [|split].
+      * intros x. rewrite Hin. cbn. tauto.
+      * intros x. rewrite Hf. cbn. split.
+        -- intros [<-|[Hx Hn]]; [tauto|]. split; [tauto|]. intros Hs. apply Hn. auto.
+        -- intros [[<-|Hx] Hn]; [tauto|]. destruct (Nat.eq_dec c x) as [->|Hne]; [tauto|].
+           right. split; [assumption|]. intros [E'|Hs]; [congruence|contradiction].
+      * constructor; [|assumption]. rewrite Hf. cbn. tauto.
+Qed.
+
+(** The calls made do not depend on the order in which Go iterates its maps:
+    the delivered multiset is determined by the visited multiset. *)
+Lemma deliver_perm vs vs' u :
+  Permutation vs vs' -> Permutation (fst (deliver vs u)) (fst (deliver vs' u)).
+Proof.
+  intros Hp. destruct u as [s|].
+  - destruct (deliver_some vs s) as (_ & _ & _ & Hf & Hnd).
+    destruct (deliver_some vs' s) as (_ & _ & _ & Hf' & Hnd').
+    apply NoDup_Permutation; try assumption.
+    intros c. rewrite Hf, Hf'. split; intros [H Hn]; (split; [|assumption]).
+    + eapply Permutation_in; eauto.
+    + eapply Permutation_in; [symmetry|]; eauto.
+  - now rewrite !deliver_none.
+Qed.
+
+Lemma match_update_visit b p : match_update b p = visit b p.
+Proof. unfold match_update, update_once. now rewrite deliver_none. Qed.
+
+Lemma update_many_none b ps : forall acc,
+  fold_left (fun acc p => let r := update_once b p (snd acc) in (fst acc ++ fst r, snd r)) ps (acc, None)
+  = (acc ++ flat_map (visit b) ps, None).
+Proof.
+  induction ps as [|p ps IH]; intros acc; cbn.
+  - now rewrite app_nil_r.
+  - change (update_once b p None) with (deliver (visit b p) None).
+    rewrite deliver_none. cbn [fst snd]. rewrite IH. now rewrite app_assoc.
+Qed.
+
+Lemma update_many_some b ps : forall acc s,
+  NoDup acc -> (forall c, In c acc -> In c s) ->
+  let r := fold_left (fun acc p => let r := update_once b p (snd acc) in (fst acc ++ fst r, snd r))
+                     ps (acc, Some s) in
+  NoDup (fst r) /\
+  (forall c, In c (fst r) <-> In c acc \/ (~ In c s /\ exists p, In p ps /\ In c (visit b p))).
+Proof.
+  induction ps as [|p ps IH]; intros acc s Hnd Hsub; cbn.
+  - split; [assumption|]. intros c. split; [auto|]. intros [H|[_ (p & [] & _)]]. assumption.
+  - change (update_once b p (Some s)) with (deliver (visit b p) (Some s)).
+    destruct (deliver_some (visit b p) s) as (s' & Hs' & Hin & Hf & Hnd').
+    rewrite Hs'.
+    specialize (IH (acc ++ fst (deliver (visit b p) (Some s))) s').
+    destruct IH as [IH1 IH2].
+    + apply NoDup_app_intro; try assumption.
+      intros x Hx Hy. apply Hf in Hy. destruct Hy as [_ Hn]. auto.
+    + intros c Hc. apply in_app_iff in Hc as [Hc|Hc]; apply Hin; [auto|].
+      apply Hf in Hc. tauto.
+    + split; [exact IH1|]. intros c. rewrite IH2, in_app_iff, Hf, Hin. split.
+      * intros [[H|[Hv Hn]]|[Hn (p' & Hp' & Hv)]]; [auto| |].
+        -- right. split; [assumption|]. exists p. cbn. auto.
+        -- right. split; [tauto|]. exists p'. cbn. auto.
+      * intros [H|[Hn (p' & [<-|Hp'] & Hv)]]; [auto| |].
+        -- left. right. tauto.
+        -- destruct (in_dec Nat.eq_dec c (visit b p)) as [Hi|Hni].
+           ++ left. right. tauto.
+           ++ right. split; [tauto|]. eauto.
+Qed.
+
+(** who is offered a notification, whatever the flag *)
+Lemma update_notification_In f b prefix paths c :
+  In c (update_notification_gen f b prefix paths) <->
+  exists p, In p paths /\ In c (visit b (prefix ++ p)).
+Proof.
+  unfold update_notification_gen, update_many.
+  destruct (f || (1 <? List.length paths)%nat).
+  - pose proof (update_many_some b (map (fun p => prefix ++ p) paths) [] [] (NoDup_nil _)
+                  (fun c H => H)) as [_ H].
+    cbn zeta in H. rewrite H. cbn. split.
+    + intros [[]|[_ (p & Hp & Hv)]]. apply in_map_iff in Hp as (p0 & <- & Hp0). eauto.
+    + intros (p & Hp & Hv). right. split; [tauto|]. exists (prefix ++ p). split; [|assumption].
+      apply in_map_iff. eauto.
+  - rewrite update_many_none. cbn. rewrite in_flat_map. split.
+    + intros (p & Hp & Hv). apply in_map_iff in Hp as (p0 & <- & Hp0). eauto.
+    + intros (p & Hp & Hv). exists (prefix ++ p). split; [|assumption]. apply in_map_iff. eauto.
+Qed.
+
+Lemma update_notification_nodup f b prefix paths :
+  f = true \/ (2 <= List.length paths)%nat ->
+  NoDup (update_notification_gen f b prefix paths).
+Proof.
+  intros H. unfold update_notification_gen, update_many.
+  assert (E : f || (1 <? List.length paths)%nat = true).
+  { destruct H as [->|H]; [reflexivity|]. apply orb_true_iff. right. apply Nat.ltb_lt. lia. }
+  rewrite E.
+  apply (update_many_some b (map (fun p => prefix ++ p) paths) [] [] (NoDup_nil _) (fun c H => H)).
+Qed.
+
+(** * Statements of the property over the model *)
+
+(** offered iff compatible, over every reachable trie *)
+Lemma offered_iff_compatible h p c :
+  In c (match_update (run_hist h) p) <->
+  exists q, In (q, c) (regs h) /\ compat q p = true.
+Proof.
+  rewrite match_update_visit, visit_spec by apply wf_hist.
+  destruct (agrees_hist h) as [_ Hag].
+  split; intros (q & Hq & Hc); exists q; (split; [apply Hag; assumption|assumption]).
+Qed.
+
+Lemma notification_offered_iff f h prefix paths c :
+  In c (update_notification_gen f (run_hist h) prefix paths) <->
+  exists p q, In p paths /\ In (q, c) (regs h) /\ compat q (prefix ++ p) = true.
+Proof.
+  rewrite update_notification_In. split.
+  - intros (p & Hp & Hv). rewrite <- match_update_visit in Hv.
+    apply offered_iff_compatible in Hv as (q & Hq & Hc). eauto.
+  - intros (p & q & Hp & Hq & Hc). exists p. split; [assumption|].
+    rewrite <- match_update_visit. apply offered_iff_compatible. eauto.
+Qed.
+
+(** at most once per notification *)
+Lemma at_most_once_gen f b prefix paths c :
+  f = true \/ (2 <= List.length paths)%nat ->
+  (count_occ Nat.eq_dec (update_notification_gen f b prefix paths) c <= 1)%nat.
+Proof.
+  intros H. apply NoDup_count_occ. now apply update_notification_nodup.
+Qed.
+
+(** nothing after removal; other registrations unaffected; idempotent *)
+Lemma regs_after_remove h q c q' c' :
+  In (q', c') (regs (h ++ [HRem q c])) <-> In (q', c') (regs h) /\ (q', c') <> (q, c).
+Proof.
+  unfold regs. rewrite fold_left_app. cbn. rewrite filter_In, negb_true_iff. split.
+  - intros [H E]. split; [assumption|]. intros E'. rewrite E' in E.
+    assert (pair_eqb (q, c) (q, c) = true) by (apply pair_eqb_eq; reflexivity). congruence.
+  - intros [H Hne]. split; [assumption|]. destruct (pair_eqb (q', c') (q, c)) eqn:E; [|reflexivity].
+    apply pair_eqb_eq in E. contradiction.
+Qed.
+
+Lemma no_delivery_after_remove h q c p :
+  (forall q', In (q', c) (regs h) -> q' <> q -> compat q' p = false) ->
+  ~ In c (match_update (run_hist (h ++ [HRem q c])) p).
+Proof.
+  intros Hno Hin. apply offered_iff_compatible in Hin as (q' & Hq' & Hc).
+  apply regs_after_remove in Hq' as [Hq' Hne].
+  rewrite Hno in Hc; [discriminate|assumption|]. intros ->. now apply Hne.
+Qed.
+
+Lemma remove_isolated h q c p c' :
+  c' <> c ->
+  (In c' (match_update (run_hist (h ++ [HRem q c])) p) <-> In c' (match_update (run_hist h) p)).
+Proof.
+  intros Hne. rewrite !offered_iff_compatible. split; intros (q' & Hq' & Hc); exists q'; (split; [|assumption]).
+  - now apply regs_after_remove in Hq' as [Hq' _].
+  - apply regs_after_remove. split; [assumption|]. congruence.
+Qed.
+
+Lemma remove_query_idem q : forall c b,
+  wf b -> fst (remove_query q c (fst (remove_query q c b))) = fst (remove_query q c b).
+Proof.
+  induction q as [|k r IH]; intros c [cl ch] Hwf; cbn.
+  - f_equal. unfold cl_del. induction cl as [|x cl IHcl]; cbn; [reflexivity|].
+    inversion Hwf as [? ? Hcl Hnd Hall]; subst.
+    destruct (negb (x =? c)%nat) eqn:E; cbn.
+    + rewrite E. f_equal. apply IHcl. constructor; [now inversion Hcl|assumption|assumption].
+    + apply IHcl. constructor; [now inversion Hcl|assumption|assumption].
+  - destruct (assoc k ch) as [sb|] eqn:Hk; cbn.
+    2:{ rewrite Hk. reflexivity. }
+    inversion Hwf as [? ? Hcl Hnd Hall]; subst.
+    assert (Hsb : wf sb) by (eapply wf_child; eauto).
+    destruct (snd (remove_query r c sb)) eqn:Hflag.
+    + rewrite assoc_adel by assumption. rewrite String.eqb_refl. reflexivity.
+    + rewrite assoc_aset, String.eqb_refl.
+      rewrite remove_query_flag, IH by assumption.
+      rewrite <- remove_query_flag, Hflag. now rewrite aset_aset_same.
+Qed.
+
+Lemma remove_root_idem q c b : wf b -> remove_root q c (remove_root q c b) = remove_root q c b.
+Proof. apply remove_query_idem. Qed.
+
+(** * Pruning: no empty node survives below the root *)
+
+Definition nonempty_br (b : branch) : bool := negb (is_empty_br (br_clients b) (br_children b)).
+
+Inductive pruned : branch -> Prop :=
+| pruned_br cl ch :
+    Forall (fun kc => pruned (snd kc) /\ nonempty_br (snd kc) = true) ch -> pruned (Br cl ch).
+
+Lemma pruned_empty : pruned empty_branch.
+Proof. constructor. constructor. Qed.
+
+Lemma aset_not_nil {A} k (a : A) l : aset k a l <> [].
+Proof. destruct l as [|[k' a'] l]; cbn; [discriminate|]. destruct (String.eqb k k'); discriminate. Qed.
+
+Lemma add_query_nonempty q c b : nonempty_br (add_query q c b) = true.
+Proof.
+  destruct b as [cl ch]. destruct q as [|k r]; cbn.
+  - unfold nonempty_br, cl_add. cbn. destruct (mem c cl) eqn:E.
+    + destruct cl; [discriminate|reflexivity].
+    + destruct cl; reflexivity.
+  - unfold nonempty_br. cbn.
+    destruct (aset k _ ch) eqn:E; [now apply aset_not_nil in E|]. destruct cl; reflexivity.
+Qed.
+
+Lemma pruned_child cl ch k sb : pruned (Br cl ch) -> assoc k ch = Some sb -> pruned sb.
+Proof.
+  intros H Hk. inversion H as [? ? Hall]; subst. rewrite Forall_forall in Hall.
+  apply assoc_In in Hk. exact (proj1 (Hall _ Hk)).
+Qed.
+
+Lemma pruned_add_query q : forall c b, pruned b -> pruned (add_query q c b).
+Proof.
+  induction q as [|k r IH]; intros c [cl ch] Hp; cbn.
+  - inversion Hp; subst. now constructor.
+  - inversion Hp as [? ? Hall]; subst. constructor.
+    apply Forall_aset; [assumption|]. cbn. split; [|apply add_query_nonempty].
+    apply IH. destruct (assoc k ch) as [sb|] eqn:Hk; [eapply pruned_child; eauto|apply pruned_empty].
+Qed.
+
+Lemma pruned_remove_query q : forall c b, pruned b -> pruned (fst (remove_query q c b)).
+Proof.
+  induction q as [|k r IH]; intros c [cl ch] Hp; cbn.
+  - inversion Hp; subst. now constructor.
+  - destruct (assoc k ch) as [sb|] eqn:Hk; cbn; [|assumption].
+    inversion Hp as [? ? Hall]; subst.
+    destruct (snd (remove_query r c sb)) eqn:Hflag.
+    + constructor. now apply Forall_adel.
+    + constructor. apply Forall_aset; [assumption|]. cbn. split.
+      * apply IH. eapply pruned_child; eauto.
+      * unfold nonempty_br. rewrite <- remove_query_flag, Hflag. reflexivity.
+Qed.
+
+Lemma pruned_hist h : pruned (run_hist h).
+Proof.
+  unfold run_hist. generalize pruned_empty. generalize empty_branch.
+  induction h as [|o h IH]; intros b Hb; cbn; [assumption|]. apply IH.
+  destruct o; cbn; [now apply pruned_add_query|now apply pruned_remove_query].
+Qed.
+
+(** a non-empty pruned node has a client somewhere below it *)
+Lemma pruned_inhabited b :
+  pruned b -> nonempty_br b = true -> exists q c, In c (clients_at b q).
+Proof.
+  induction b as [cl ch IH] using branch_ind'. intros Hp Hne.
+  destruct cl as [|c cl].
+  - destruct ch as [|[k sb] ch]; [discriminate|].
+    inversion Hp as [? ? Hall]; subst. inversion Hall as [|? ? [Hsb Hnsb] _]; subst.
+    inversion IH as [|? ? IHsb _]; subst. cbn [snd] in *.
+    destruct (IHsb Hsb Hnsb) as (q & c & Hin).
+    exists (k :: q), c. rewrite clients_at_cons. cbn. rewrite String.eqb_refl. exact Hin.
+  - exists [], c. cbn. auto.
+Qed.
+
+(** when nothing is registered any more the trie is the empty trie again *)
+Lemma no_leak h : (forall q c, ~ In (q, c) (regs h)) -> run_hist h = empty_branch.
+Proof.
+  intros Hnone. destruct (agrees_hist h) as [_ Hag]. pose proof (pruned_hist h) as Hp.
+  destruct (run_hist h) as [cl ch].
+  destruct cl as [|c cl].
+  - destruct ch as [|[k sb] ch]; [reflexivity|]. exfalso.
+    inversion Hp as [? ? Hall]; subst. inversion Hall as [|? ? [Hsb Hnsb] _]; subst. cbn [snd] in *.
+    destruct (pruned_inhabited _ Hsb Hnsb) as (q & c & Hin).
+    apply (Hnone (k :: q) c). apply Hag. rewrite clients_at_cons. cbn. rewrite String.eqb_refl. exact Hin.
+  - exfalso. apply (Hnone [] c). apply Hag. cbn. auto.
+Qed.
+
+(** * addSubscription *)
+
+Definition origin_splice (pre p : gpath) : list string :=
+  if String.eqb (gp_origin pre) "" && negb (String.eqb (gp_origin p) "") then [gp_origin p] else [].
+
+(** the path an entry is registered with *)
+Definition sub_query (pre p : gpath) : path :=
+  to_strings true pre ++ origin_splice pre p ++ to_strings false p.
+
+Definition entry_path (f2 : bool) (e : option gpath) : option gpath :=
+  match e with Some p => Some p | None => if f2 then Some empty_gpath else None end.
+
+Definition sub_queries (f2 : bool) (pre : gpath) (ents : list (option gpath)) : list path :=
+  flat_map (fun e => match entry_path f2 e with Some p => [sub_query pre p] | None => [] end) ents.
+
+Definition qref_ok (s : qref) : Prop :=
+  match s with Shared len => (len <= slice_cap)%nat | Own _ => True end.
+
+Definition qref_base (s : qref) : nat :=
+  match s with Shared len => len | Own _ => slice_cap end.
+
+Lemma go_append_spec arr s xs :
+  List.length arr = slice_cap -> qref_ok s ->
+  qref_val (fst (go_append arr s xs)) (snd (go_append arr s xs)) = qref_val arr s ++ xs /\
+  List.length (fst (go_append arr s xs)) = slice_cap /\
+  qref_ok (snd (go_append arr s xs)) /\
+  (qref_base s <= qref_base (snd (go_append arr s xs)))%nat /\
+  (forall n, (n <= qref_base s)%nat -> firstn n (fst (go_append arr s xs)) = firstn n arr).
+Proof.
+  intros Hlen Hok. destruct s as [len|q]; cbn in *.
+  2:{ repeat split; auto. }
+  destruct (len + List.length xs <=? slice_cap)%nat eqn:E; cbn.
+  2:{ repeat split; auto. }
+  apply Nat.leb_le in E.
+  assert (Hl1 : List.length (firstn len arr) = len) by (rewrite firstn_length; lia).
+  repeat split.
+  - rewrite firstn_app, Hl1. rewrite firstn_all2 by lia.
+    replace (len + List.length xs - len)%nat with (List.length xs) by lia.
+    rewrite firstn_app, firstn_all, Nat.sub_diag. cbn. now rewrite app_nil_r.
+  - rewrite !app_length, Hl1, skipn_length. lia.
+  - assumption.
+  - lia.
+  - intros n Hn. rewrite firstn_app, Hl1.
+    replace (n - len)%nat with 0%nat by lia. cbn. rewrite app_nil_r.
+    rewrite firstn_firstn. f_equal. lia.
+Qed.
+
+Definition sub_inv (prefix : path) (a : sub_acc) : Prop :=
+  List.length (sa_arr a) = slice_cap /\ firstn (List.length prefix) (sa_arr a) = prefix.
+
+Lemma sub_entry_spec f2 f3 c pre a e :
+  let prefix := to_strings true pre in
+  (List.length prefix <= slice_cap)%nat ->
+  sub_inv prefix a ->
+  let a' := sub_entry f2 f3 c pre (List.length prefix) a e in
+  sub_inv prefix a' /\
+  sa_trie a' = match entry_path f2 e with
+               | Some p => add_query (sub_query pre p) c (sa_trie a)
+               | None => sa_trie a
+               end /\
+  (f3 = true ->
+   sa_refs a' = sa_refs a ++ match entry_path f2 e with
+                             | Some p => [Own (sub_query pre p)]
+                             | None => []
+                             end) /\
+  match entry_path f2 e with
+  | Some p => exists s, sa_refs a' = sa_refs a ++ [s] /\ qref_val (sa_arr a') s = sub_query pre p
+  | None => a' = a
+  end.
+Proof.
+  intros prefix Hk [Hlen Hpre] a'. subst a'. unfold sub_entry. fold (entry_path f2 e).
+  destruct (entry_path f2 e) as [p|].
+  2:{ repeat split; auto. intros _. now rewrite app_nil_r. }
+  set (k := List.length prefix) in *.
+  set (start := if f3 then Own (firstn k (sa_arr a)) else Shared k).
+  assert (Hstart_ok : qref_ok start) by (subst start; destruct f3; cbn; auto).
+  assert (Hstart_val : qref_val (sa_arr a) start = prefix) by (subst start; destruct f3; cbn; auto).
+  assert (Hstart_base : (k <= qref_base start)%nat) by (subst start; destruct f3; cbn; auto).
+  set (r1 := if String.eqb (gp_origin pre) "" && negb (String.eqb (gp_origin p) "")
+             then go_append (sa_arr a) start [gp_origin p] else (sa_arr a, start)).
+  assert (H1 : qref_val (fst r1) (snd r1) = prefix ++ origin_splice pre p /\
+               List.length (fst r1) = slice_cap /\ qref_ok (snd r1) /\
+               (k <= qref_base (snd r1))%nat /\ firstn k (fst r1) = prefix /\
+               (f3 = true -> snd r1 = Own (prefix ++ origin_splice pre p))).
+  { subst r1. unfold origin_splice.
+    destruct (String.eqb (gp_origin pre) "" && negb (String.eqb (gp_origin p) "")).
+    - destruct (go_append_spec (sa_arr a) start [gp_origin p] Hlen Hstart_ok)
+        as (Hv & Hl & Hok & Hb & Hf).
+      rewrite Hv, Hstart_val. repeat split; auto; [lia|rewrite Hf by lia; exact Hpre|].
+      intros ->. subst start. unfold go_append. cbn [snd]. now rewrite Hpre.
+    - cbn [fst snd]. rewrite app_nil_r. repeat split; auto.
+      intros ->. subst start. cbn iota. now rewrite Hpre. }
+  destruct H1 as (Hv1 & Hl1 & Hok1 & Hb1 & Hf1 & Hown1).
+  destruct (go_append_spec (fst r1) (snd r1) (to_strings false p) Hl1 Hok1)
+    as (Hv2 & Hl2 & Hok2 & Hb2 & Hf2).
+  cbn [sa_trie sa_arr sa_refs]. rewrite Hv2, Hv1, <- app_assoc. fold (sub_query pre p).
+  repeat split; auto.
+  - rewrite Hf2 by lia. exact Hf1.
+  - intros Hf3. rewrite (Hown1 Hf3). cbn. unfold sub_query. now rewrite app_assoc.
+  - eexists. split; [reflexivity|]. rewrite Hv2, Hv1, <- app_assoc. reflexivity.
+Qed.
+
+Lemma pad_inv prefix :
+  (List.length prefix <= slice_cap)%nat -> sub_inv prefix (SubAcc empty_branch (pad prefix) []) .
+Proof.
+  intros Hk. split; cbn.
+  - unfold pad. rewrite app_length, repeat_length. lia.
+  - unfold pad. rewrite firstn_app, firstn_all, Nat.sub_diag. cbn. now rewrite app_nil_r.
+Qed.
+
+Lemma sub_fold_spec f2 f3 c pre ents : forall a,
+  let prefix := to_strings true pre in
+  (List.length prefix <= slice_cap)%nat ->
+  sub_inv prefix a ->
+  let a' := fold_left (sub_entry f2 f3 c pre (List.length prefix)) ents a in
+  sa_trie a' = fold_left (fun t q => add_query q c t) (sub_queries f2 pre ents) (sa_trie a) /\
+  (f3 = true -> sa_refs a' = sa_refs a ++ map Own (sub_queries f2 pre ents)).
+Proof.
+  induction ents as [|e ents IH]; intros a prefix Hk Hinv.
+  - cbn. split; [reflexivity|]. intros _. now rewrite app_nil_r.
+  - cbn [fold_left]. subst prefix. cbn zeta in *.
+    destruct (sub_entry_spec f2 f3 c pre a e Hk Hinv) as (Hinv' & Ht & Hr & _).
+    destruct (IH _ Hk Hinv') as [IHt IHr].
+    assert (Hq : sub_queries f2 pre (e :: ents) =
+                 match entry_path f2 e with Some p => [sub_query pre p] | None => [] end
+                 ++ sub_queries f2 pre ents) by reflexivity.
+    rewrite Hq. split.
+    + rewrite IHt, Ht, fold_left_app. destruct (entry_path f2 e); reflexivity.
+    + intros Hf3. rewrite (IHr Hf3), (Hr Hf3), <- app_assoc, map_app. f_equal.
+      destruct (entry_path f2 e); reflexivity.
+Qed.
+
+(** registration is right whatever the aliasing *)
+Lemma add_subscription_trie f2 f3 b c pre ents b' qs :
+  add_subscription_gen f2 f3 b c pre ents = Some (b', qs) ->
+  b' = fold_left (fun t q => add_query q c t) (sub_queries f2 pre ents) b.
+Proof.
+  unfold add_subscription_gen.
+  destruct (List.length (to_strings true pre) <=? slice_cap)%nat eqn:E; [|discriminate].
+  apply Nat.leb_le in E. intros H. inversion H; subst; clear H.
+  assert (Hinv : sub_inv (to_strings true pre) (SubAcc b (pad (to_strings true pre)) [])).
+  { destruct (pad_inv _ E) as [H1 H2]. split; assumption. }
+  exact (proj1 (sub_fold_spec f2 f3 c pre ents _ E Hinv)).
+Qed.
+
+(** with the slices copied the closure removes exactly what was registered *)
+Lemma add_subscription_closure f2 b c pre ents b' qs :
+  add_subscription_gen f2 true b c pre ents = Some (b', qs) -> qs = sub_queries f2 pre ents.
+Proof.
+  unfold add_subscription_gen.
+  destruct (List.length (to_strings true pre) <=? slice_cap)%nat eqn:E; [|discriminate].
+  apply Nat.leb_le in E. intros H. inversion H; subst; clear H.
+  assert (Hinv : sub_inv (to_strings true pre) (SubAcc b (pad (to_strings true pre)) [])).
+  { destruct (pad_inv _ E) as [H1 H2]. split; assumption. }
+  rewrite (proj2 (sub_fold_spec f2 true c pre ents _ E Hinv) eq_refl). cbn.
+  rewrite map_map. cbn. apply map_id.
+Qed.
+
+Lemma wf_fold_add qs c : forall b, wf b -> wf (fold_left (fun t q => add_query q c t) qs b).
+Proof. induction qs as [|q qs IH]; intros b H; cbn; [assumption|]. apply IH. now apply wf_add_query. Qed.
+
+Lemma clients_at_fold_add qs c : forall b q' c',
+  In c' (clients_at (fold_left (fun t q => add_query q c t) qs b) q') <->
+  In c' (clients_at b q') \/ (c' = c /\ In q' qs).
+Proof.
+  induction qs as [|q qs IH]; intros b q' c'; cbn; [tauto|].
+  rewrite IH, clients_at_add_query. intuition (subst; auto).
+Qed.
+
+Lemma wf_remove_all qs c : forall b, wf b -> wf (remove_all qs c b).
+Proof.
+  unfold remove_all. induction qs as [|q qs IH]; intros b H; cbn; [assumption|].
+  apply IH. now apply wf_remove_root.
+Qed.
+
+Lemma clients_at_remove_all qs c : forall b q' c',
+  wf b ->
+  (In c' (clients_at (remove_all qs c b) q') <->
+   In c' (clients_at b q') /\ ~ (c' = c /\ In q' qs)).
+Proof.
+  unfold remove_all. induction qs as [|q qs IH]; intros b q' c' Hwf; cbn; [tauto|].
+  rewrite IH by now apply wf_remove_root. rewrite clients_at_remove_root by assumption.
+  intuition (subst; auto).
+Qed.
+
+(** the path an entry is registered with is the target followed by the path
+    its snapshot queries *)
+Lemma to_strings_true pre :
+  to_strings true pre = nonempty (gp_target pre) ++ nonempty (gp_origin pre) ++ to_strings false pre.
+Proof. unfold to_strings. cbn. now rewrite <- app_assoc. Qed.
+
+Lemma sub_query_complete pre p fp :
+  complete_path pre p = Ok fp -> sub_query pre p = nonempty (gp_target pre) ++ fp.
+Proof.
+  unfold complete_path, sub_query, origin_splice. rewrite to_strings_true.
+  unfold nonempty at 2.
+  destruct (String.eqb_spec (gp_origin pre) "") as [Ho|Ho];
+    destruct (String.eqb_spec (gp_origin p) "") as [Hp|Hp]; cbn [negb andb]; try discriminate.
+  - intros H; inversion H; subst. cbn [app]. now rewrite <- !app_assoc.
+  - destruct (to_strings false pre) eqn:E; [|discriminate].
+    intros H; inversion H; subst. cbn [app]. now rewrite <- !app_assoc.
+  - intros H; inversion H; subst. cbn [app]. now rewrite <- !app_assoc.
+Qed.
+
+(** every leaf a snapshot query of a registered entry returns is streamed *)
+Lemma query_implies_stream_gen f2 f3 b c pre ents b' qs e p fp t' ip :
+  wf b ->
+  add_subscription_gen f2 f3 b c pre ents = Some (b', qs) ->
+  In e ents -> entry_path f2 e = Some p ->
+  complete_path pre p = Ok fp ->
+  gp_target pre <> "" ->
+  (gp_target pre = t' \/ gp_target pre = "*" \/ t' = "*") ->
+  qmatch fp ip = true ->
+  In c (visit b' (t' :: ip)).
+Proof.
+  intros Hwf Hadd He Hp Hfp Ht Htt Hq.
+  pose proof (add_subscription_trie _ _ _ _ _ _ _ _ Hadd) as Eb; subst b'.
+  apply visit_spec; [now apply wf_fold_add|].
+  exists (sub_query pre p). split.
+  - apply clients_at_fold_add. right. split; [reflexivity|].
+    unfold sub_queries. apply in_flat_map. exists e. split; [assumption|]. rewrite Hp. cbn. auto.
+  - rewrite (sub_query_complete _ _ _ Hfp). unfold nonempty.
+    destruct (String.eqb_spec (gp_target pre) ""); [contradiction|]. cbn.
+    apply andb_true_iff. split; [|now apply qmatch_compat].
+    destruct Htt as [ -> | [ -> | -> ] ]; [now rewrite String.eqb_refl, orb_true_r|reflexivity|].
+    cbn. now rewrite orb_true_r.
+Qed.
+
+(** subscribe then unsubscribe: the client's paths are gone, nothing else changed *)
+Lemma subscription_removed_gen f2 b c pre ents b' qs q' c' :
+  wf b ->
+  add_subscription_gen f2 true b c pre ents = Some (b', qs) ->
+  (In c' (clients_at (remove_all qs c b') q') <->
+   In c' (clients_at b q') /\ ~ (c' = c /\ In q' (sub_queries f2 pre ents))).
+Proof.
+  intros Hwf Hadd.
+  pose proof (add_subscription_closure _ _ _ _ _ _ _ Hadd) as Eq; subst qs.
+  pose proof (add_subscription_trie _ _ _ _ _ _ _ _ Hadd) as Eb; subst b'.
+  rewrite clients_at_remove_all by now apply wf_fold_add.
+  rewrite clients_at_fold_add. tauto.
+Qed.
+
+(** the code as it is: a subscription list with a single entry is removed correctly *)
+Lemma add_subscription_closure_single f2 f3 b c pre e b' qs :
+  add_subscription_gen f2 f3 b c pre [e] = Some (b', qs) -> qs = sub_queries f2 pre [e].
+Proof.
+  unfold add_subscription_gen.
+  destruct (List.length (to_strings true pre) <=? slice_cap)%nat eqn:E; [|discriminate].
+  apply Nat.leb_le in E. intros H. inversion H; subst; clear H.
+  assert (Hinv : sub_inv (to_strings true pre) (SubAcc b (pad (to_strings true pre)) [])).
+  { destruct (pad_inv _ E) as [H1 H2]. split; assumption. }
+  cbn [fold_left].
+  destruct (sub_entry_spec f2 f3 c pre _ e E Hinv) as (_ & _ & _ & Hs).
+  unfold sub_queries. cbn [flat_map]. rewrite app_nil_r.
+  destruct (entry_path f2 e) as [p|].
+  - destruct Hs as (s & Hr & Hv). rewrite Hr. cbn [sa_refs app map]. now rewrite Hv.
+  - rewrite Hs. reflexivity.
+Qed.
+
+Lemma subscription_removed_single f2 f3 b c pre e b' qs q' c' :
+  wf b ->
+  add_subscription_gen f2 f3 b c pre [e] = Some (b', qs) ->
+  (In c' (clients_at (remove_all qs c b') q') <->
+   In c' (clients_at b q') /\ ~ (c' = c /\ In q' (sub_queries f2 pre [e]))).
+Proof.
+  intros Hwf Hadd.
+  pose proof (add_subscription_closure_single _ _ _ _ _ _ _ _ Hadd) as Eq; subst qs.
+  pose proof (add_subscription_trie _ _ _ _ _ _ _ _ Hadd) as Eb; subst b'.
+  rewrite clients_at_remove_all by now apply wf_fold_add.
+  rewrite clients_at_fold_add. tauto.
+Qed.
+
+(** * Refutations on the code as it is (the [_gen] functions with the flags
+      [false], which is what [update_notification] / [add_subscription] are
+      until the patches are committed), with their witnesses
+      (corpus/C06/kf1..kf3) *)
+
+Definition w_dev := "dev1".
+Definition w_pre : gpath := gp_prefix w_dev "" [].
+
+Lemma at_most_once_refuted :
+  exists h prefix paths c,
+    (2 <= count_occ Nat.eq_dec (update_notification_gen false (run_hist h) prefix paths) c)%nat.
+Proof.
+  exists [HAdd [w_dev; "a"] 3%nat; HAdd [w_dev; "a"; "b"] 3%nat; HAdd [w_dev; "*"] 3%nat],
+         [w_dev], [["a"; "b"]], 3%nat.
+  vm_compute. lia.
+Qed.
+
+Lemma query_implies_stream_refuted :
+  exists c pre ents b' qs e fp t' ip,
+    add_subscription_gen false false empty_branch c pre ents = Some (b', qs) /\
+    In e ents /\ complete_path pre (gp_of_opt e) = Ok fp /\
+    gp_target pre = t' /\ qmatch fp ip = true /\
+    ~ In c (visit b' (t' :: ip)).
+Proof.
+  exists 3%nat, w_pre, [None], empty_branch, [], None, [], w_dev, ["a"].
+  repeat split; try reflexivity; [left; reflexivity|]. vm_compute. tauto.
+Qed.
+
+Lemma unsubscribe_refuted :
+  exists c pre ents b' qs p,
+    add_subscription_gen false false empty_branch c pre ents = Some (b', qs) /\
+    In c (match_update (remove_all qs c b') p).
+Proof.
+  eexists 3%nat, w_pre, [Some (gp_of_names ["a"]); Some (gp_of_names ["b"])], _, _, [w_dev; "a"].
+  split; [vm_compute; reflexivity|]. vm_compute. auto.
+Qed.
+
+(** * Non-vacuity: concrete instances of the hypotheses *)
+
+Example ex_history : list hop :=
+  [HAdd [w_dev; "a"; "*"] 1%nat; HAdd [w_dev; "a"] 2%nat; HAdd ["*"; "a"; "b"] 1%nat;
+   HRem [w_dev; "a"] 2%nat; HAdd [w_dev] 2%nat].
+
+Definition tally_sorted (l : list cid) : list cid := isort Nat.leb l.
+
+Example ex_offered :
+  tally_sorted (match_update (run_hist ex_history) [w_dev; "a"; "b"]) = [1%nat; 1%nat; 2%nat]
+  /\ In ([w_dev; "a"; "*"], 1%nat) (regs ex_history)
+  /\ compat [w_dev; "a"; "*"] [w_dev; "a"; "b"] = true.
+Proof. repeat split; vm_compute; auto. Qed.
+
+(** * The statements of Props/C06.v that are instances of the lemmas above *)
+
+Lemma query_implies_stream_partial b c pre ents b' qs p fp t' ip :
+  wf b ->
+  add_subscription b c pre ents = Some (b', qs) ->
+  In (Some p) ents ->
+  complete_path pre p = Ok fp ->
+  gp_target pre <> "" ->
+  (gp_target pre = t' \/ gp_target pre = "*" \/ t' = "*") ->
+  qmatch fp ip = true ->
+  In c (visit b' (t' :: ip)).
+Proof.
+  intros Hwf Hadd Hin. eapply query_implies_stream_gen; eauto.
+Qed.
+
+Lemma query_implies_stream_patched f3 b c pre ents b' qs e fp t' ip :
+  wf b ->
+  add_subscription_gen true f3 b c pre ents = Some (b', qs) ->
+  In e ents ->
+  complete_path pre (gp_of_opt e) = Ok fp ->
+  gp_target pre <> "" ->
+  (gp_target pre = t' \/ gp_target pre = "*" \/ t' = "*") ->
+  qmatch fp ip = true ->
+  In c (visit b' (t' :: ip)).
+Proof.
+  intros Hwf Hadd Hin. eapply query_implies_stream_gen; eauto. destruct e; reflexivity.
+Qed.
+
+Lemma at_most_once_partial b prefix paths c :
+  (2 <= List.length paths)%nat ->
+  (count_occ Nat.eq_dec (update_notification b prefix paths) c <= 1)%nat.
+Proof. intros H. apply at_most_once_gen. now right. Qed.
+
+Lemma at_most_once_patched b prefix paths c :
+  (count_occ Nat.eq_dec (update_notification_gen true b prefix paths) c <= 1)%nat.
+Proof. apply at_most_once_gen. now left. Qed.
+
+Lemma remove_idempotent_hist h q c :
+  remove_root q c (remove_root q c (run_hist h)) = remove_root q c (run_hist h).
+Proof. apply remove_root_idem, wf_hist. Qed.
+
+Lemma subscribe_registers b c pre ents b' qs q' c' :
+  add_subscription b c pre ents = Some (b', qs) ->
+  (In c' (clients_at b' q') <->
+   In c' (clients_at b q') \/ (c' = c /\ In q' (sub_queries fixed_C06_2 pre ents))).
+Proof.
+  intros Hadd. rewrite (add_subscription_trie _ _ _ _ _ _ _ _ Hadd). apply clients_at_fold_add.
+Qed.
+
+Lemma unsubscribe_partial b c pre e b' qs q' c' :
+  wf b ->
+  add_subscription b c pre [e] = Some (b', qs) ->
+  (In c' (clients_at (remove_all qs c b') q') <->
+   In c' (clients_at b q') /\ ~ (c' = c /\ In q' (sub_queries fixed_C06_2 pre [e]))).
+Proof. apply subscription_removed_single. Qed.
+
+(** * Soundness of the executable specification K_P (MatchCheck.judge)
+
+    When [judge] raises nothing for a client on a notification, the clauses of
+    the property hold of the implementation's observation: the client was
+    offered iff one of its live registered paths is compatible with one of the
+    notification's paths, at most once, and it was offered if its snapshot
+    would have returned one of the leaves. *)
+From Gnmi Require Import Match.MatchCheck.
+
+Lemma judge_sound s np ps offers hits c :
+  mem c (s_unspec s) = false ->
+  judge s true np ps offers hits c = [] ->
+  let live := regs_of c ps (s_reg s) in
+  let n := count_of c offers in
+  (live = [] <-> n = 0%nat) /\ (n <= 1)%nat /\ (mem c hits = true -> n <> 0%nat).
+Proof.
+  intros Hun. unfold judge. rewrite Hun. cbn zeta.
+  set (live := regs_of c ps (s_reg s)). set (gone := regs_of c ps (s_gone s)).
+  set (n := count_of c offers).
+  intros H. apply app_eq_nil in H as [H1 H]. apply app_eq_nil in H as [H2 H3].
+  repeat split.
+  - intros E. rewrite E in H1. destruct n; [reflexivity|]. exfalso.
+    destruct gone; [discriminate|]. destruct (existsb r_nonlast (s0 :: gone)); discriminate.
+  - intros E. rewrite E in H1. destruct live; [reflexivity|]. exfalso.
+    destruct (forallb r_nil (s0 :: live)); [discriminate|].
+    destruct (mem c (s_multi_removed s)); discriminate.
+  - destruct live eqn:El.
+    + destruct n; [lia|]. exfalso.
+      destruct gone; [discriminate|]. destruct (existsb r_nonlast (s0 :: gone)); discriminate.
+    + destruct (2 <=? n)%nat eqn:E2; [|apply Nat.leb_gt in E2; lia]. exfalso.
+      destruct (Nat.eqb np 1 && (2 <=? List.length (dedup_paths (map r_path (s0 :: l))))%nat); discriminate.
+  - intros Hh En. rewrite Hh, En in H3. cbn in H3.
+    destruct live; [discriminate|]. destruct (forallb r_nil (s0 :: live)); discriminate.
+Qed.
+
+(** more non-vacuity instances *)
+
+(** hypotheses of [query_implies_stream_gen] are satisfiable on the code as it is *)
+Example ex_query_stream :
+  exists b' qs,
+    add_subscription empty_branch 3%nat w_pre [Some (gp_of_names ["a"; "*"])] = Some (b', qs) /\
+    complete_path w_pre (gp_of_names ["a"; "*"]) = Ok ["a"; "*"] /\
+    qmatch ["a"; "*"] ["a"; "b"; "c"] = true /\
+    In 3%nat (visit b' [w_dev; "a"; "b"; "c"]).
+Proof. eexists _, _. split; [vm_compute; reflexivity|]. repeat split; vm_compute; auto. Qed.
+
+(** two updates, a client with two matching paths: offered once *)
+Example ex_at_most_once :
+  update_notification
+    (run_hist [HAdd [w_dev; "a"] 3%nat; HAdd [w_dev; "*"] 3%nat]) [w_dev] [["a"]; ["a"; "b"]]
+  = [3%nat].
+Proof. vm_compute. reflexivity. Qed.
+
+(** with the slices copied, the witness of [unsubscribe_refuted] is clean *)
+Example ex_unsubscribe_fixed :
+  exists b' qs,
+    add_subscription_gen false true empty_branch 3%nat w_pre
+      [Some (gp_of_names ["a"]); Some (gp_of_names ["b"])] = Some (b', qs) /\
+    remove_all qs 3%nat b' = empty_branch.
+Proof. eexists _, _. split; vm_compute; reflexivity. Qed.
+
+(** a history after which nothing is registered (hypothesis of [no_leak]) *)
+Example ex_no_leak :
+  regs [HAdd ["a"; "b"] 1%nat; HAdd ["a"] 2%nat; HRem ["a"; "b"] 1%nat; HRem ["a"] 2%nat] = [].
+Proof. vm_compute. reflexivity. Qed.
